@@ -1817,6 +1817,8 @@ func (g *VCGen) checkExit(results []SpecVal, pos token.Pos, tag string) {
 }
 
 func (g *VCGen) panicInstr(x *ssa.Panic) {
+	// "before panic: E" — what must hold whenever the function panics explicitly
+	g.beforeNamed("panic", x.Pos(), x)
 	kind := panicKind(x)
 	name := fmt.Sprintf("panic@b%d", x.Block().Index)
 	if g.fc != nil && g.fc.MayPanic {
